@@ -87,6 +87,19 @@ def run(ctx):
         d = rng.choice([1, 1, 2, 3, 7, 10, 100, 1000, rng.randrange(1, 100000)])
         T2 = min(TMAX, T + d)
         pairs.append(((T, inc, mtg, ply), (T2, inc, mtg, ply)))
+    # dense chains: every millisecond 0..400 (thresholds / reserves hide at small clocks) and a window around random large clocks
+    chains = []
+    for inc in (0, 1000):
+        for mtg in (0, 1, 2, 40):
+            for ply in (0, 60, 200):
+                chains.append([(T, inc, mtg, ply) for T in range(0, 401)])
+    for _ in range(6 if q else 60):
+        base = rng.randrange(1000, TMAX - 200)
+        inc, mtg, ply = rng.choice([0, 500, INCMAX]), rng.choice([0, 1, 7, 200]), rng.randrange(0, 1001)
+        chains.append([(T, inc, mtg, ply) for T in range(base, base + 120)])
+    for ch in chains:
+        for a, b in zip(ch, ch[1:]):
+            pairs.append((a, b))
     pc = []
     for i, (s1, s2) in enumerate(pairs):
         pc.append("time %d %d %d %d %d" % (s1 + (i % 2,)))
@@ -122,7 +135,7 @@ def run(ctx):
     ctx.notes["ofast_equals_ieee_on"] = sum(1 for a, b in zip(fast["ieee"], fast["ofast"]) if a == b)
     ctx.cov["rule"] = ("%d clock states (boundary grid T in {0,1,9,10,11,...,24h}, inc in {0,1,1000,10min}, movestogo in {0,1,2,3,50,200}, ply in {0,1,64,65,129,1000} "
                        "+ random): (1) calculateTime of a strict-IEEE build must EQUAL the extracted Coq model run on native binary64 with the build's own "
-                       "importance() values; (2) non-negativity and the 70%% cap on the strict and the -Ofast build; (3) monotonicity on %d pairs (T, T+d) on both builds; "
+                       "importance() values; (2) non-negativity and the 70%% cap on the strict and the -Ofast build; (3) monotonicity on %d pairs (T, T+d) incl. dense chains (every ms in 0..400 for 24 parameter combinations, 120-ms windows around random clocks) on both builds; "
                        "(0) importance(x) in [1/128,1] for all x=0..%d (exhaustive). non-trivial = T > 0; distinct by case text."
                        % (len(cases), len(pairs), NIMP - 1))
     if not ok and nviol == 0 and not mism:
